@@ -212,6 +212,48 @@ class Soak:
         p.new_module(api.m.Amplifier, name=f"a{self.counter}")
         return ("new_module", self.pool.index(p))
 
+    def op_observe(self, o):
+        """Read-only helpers: printing, tabular views, the play-order view, attribute listings.  Looking is not touching:
+        the caller reports NO touched object, so every pool object (this one included) is compared afterwards."""
+        api = self.api
+        done = []
+        mods = [m for m in o.modules if m is not None] if isinstance(o, api.Project) else ([o.module] if o.module is not None else [])
+        for m in mods[:6]:
+            repr(m), str(m), dir(m)
+            list(m.controllers), list(m.options)
+            for name in list(type(m).controllers)[:40]:
+                try:
+                    getattr(m, name)
+                    m.get_raw(name)
+                except Exception:
+                    pass
+            done.append("module")
+        if isinstance(o, api.Project):
+            for q in o.patterns[:6]:
+                if isinstance(q, api.Pattern):
+                    q.tabular_repr()
+                    for line in q.data[:4]:
+                        for n in line[:4]:
+                            str(n), repr(n), n.tabular_repr(), n.is_empty(), n.module_index
+                            try:
+                                n.mod
+                            except Exception:
+                                pass
+                    done.append("pattern")
+                elif q is not None:
+                    try:
+                        q.source_pattern
+                    except Exception:
+                        pass
+            try:
+                for i, _ in enumerate(o.pattern_lines()):
+                    if i > 64:
+                        break
+                done.append("pattern_lines")
+            except Exception:
+                done.append("pattern_lines-raised")
+        return ("observe", self.pool.index(o), tuple(sorted(set(done))))
+
     def op_failing(self):
         api = self.api
         r = self.rng.random()
@@ -329,6 +371,9 @@ class Soak:
                 elif r < 0.76:
                     op = self.op_clone(o)
                     touched = [o, self.pool[-1]]
+                elif r < 0.80:
+                    op = self.op_observe(o)
+                    touched = []
                 elif r < 0.92:
                     projs = [x for x in self.pool if isinstance(x, api.Project)]
                     if not projs:
